@@ -40,6 +40,20 @@ Definition timeshift_const (data : list (T A)) (s : T A) (h : Z) : list (T A) :=
   map (fun n => fold_left (fun acc k => acc +! nth k tp (zero A) *! nth (Z.to_nat (clampZ 0 (N - 1) (Z.of_nat n + si - (h - 1) + Z.of_nat k))) data (zero A))
                           (seq 0 (Z.to_nat (2 * h))) (zero A))
       (seq 0 (length data)).
+(* time-varying path: per-sample floor/fraction split, index clipped to [-(h+1), N+h-1], zero padding, sliding window:
+   out[n] = sum_k taps(d_n)[k] * data0[clip(n + floor(s_n)) - (h-1) + k],  data0 = data extended by zeros *)
+Definition data0 (data : list (T A)) (z : Z) : T A :=
+  if ((0 <=? z) && (z <? Z.of_nat (length data)))%Z then nth (Z.to_nat z) data (zero A) else zero A.
+Definition timeshift_var (data shifts : list (T A)) (h : Z) : list (T A) :=
+  let N := Z.of_nat (length data) in
+  map (fun n => let s := nth n shifts (zero A) in
+                let si := floorZ A s in
+                let d := s -! zZ si in
+                let tp := taps h d in
+                let idx := clampZ (- (h + 1)) (N + (h - 1)) (Z.of_nat n + si) in
+                fold_left (fun acc k => acc +! nth k tp (zero A) *! data0 data (idx - (h - 1) + Z.of_nat k))
+                          (seq 0 (Z.to_nat (2 * h))) (zero A))
+      (seq 0 (length data)).
 End Taps.
 
 (* ------------------------------------------------------------------ at the reals *)
